@@ -88,7 +88,16 @@ def main(tier, seed, replay=None):
             c["ops"] = states.observe_at(rng, c, nsets=2) + [["into_seq"], ["observe"], ["jac_quiet"]]
             seq = copy.deepcopy(c)
             seq["ctor"] = SEQ_OF[ctor]
-        for t in ([1, 2, 3, 4] if force3 else [1, 2, 3, 4, 16] if many else threads if i % 4 == 0 else rng.sample(threads, 2)):
+        wide = 10 <= i < 13
+        if wide:
+            # many right-hand sides (at least as many as worker threads): whatever is distributed over the columns of the observations
+            # must come back in order
+            c = gen_problem(rng, ctor="mrhs_parallel", quant=None, family=["exp2c", "cosmix", "exp3"][i % 3], S=[16, 8, 12][i % 3],
+                            weights=["pos", "none"][i % 2])
+            c["ops"] = states.observe_at(rng, c, nsets=2) + [["into_seq"], ["observe"], ["jac_quiet"]]
+            seq = copy.deepcopy(c)
+            seq["ctor"] = "mrhs"
+        for t in ([1, 2, 3, 4] if force3 else [1, 2, 3, 4, 16] if many else [2, 4, 8] if wide else threads if i % 4 == 0 else rng.sample(threads, 2)):
             for jitter in (False, True):
                 p = copy.deepcopy(c)
                 p["threads"] = t
